@@ -63,7 +63,8 @@ Concat(a, b) ==
 \* row-major flattening of a range value
 RECURSIVE FlatRows(_)
 FlatRows(rows) == IF rows = <<>> THEN <<>> ELSE Head(rows) \o FlatRows(Tail(rows))
-Flat(m) == FlatRows(m[2])
+\* (an unbounded range may resolve to a single cell: its value is that of the cell)
+Flat(m) == IF m[1] = "M" THEN FlatRows(m[2]) ELSE <<m>>
 
 \* SUM over cells: first error, else the numbers only
 RECURSIVE FirstErr(_)
